@@ -103,7 +103,7 @@ SOCK_FAULTS = {
     "settimeout": ["oserror"],
     "wrap": ["sslerror", "oserror", "valueerror"],      # (ssl raises ValueError for e.g. a missing server_hostname: not an OSError)
     "connect": ["refused", "timeout", "oserror"],
-    "sendall": ["reset", "timeout", "pipe"],
+    "sendall": ["reset", "timeout", "pipe", "eintr"],
     "recv": ["timeout", "reset", "eof", "oserror"],
     "close": ["oserror"],
 }
